@@ -23,6 +23,13 @@ func init() {
 
 func runC02(p *eng.Prog, r *eng.Report, tier string) {
 	c := &cx{p, r, tier}
+	// C02.23 (= C11.6, imported): JID.Domain yields the domainpart alone (the default TLS ServerName is the
+	// session's own Domain(): a fast path that keeps the resourcepart puts "domain/resource" into the ClientHello)
+	importRules(c, "C11", []string{"C11.6"}, "C02.23")
+	// C02.24 (= C01.19 / C01.17 / C01.1, imported): how the features list is read, cached and selected from
+	// (a feature taken OUT of the caller's list on a match is missing from the next session's list; a cache
+	// that holds features that were not advertised lets a peer select SASL on a clear stream)
+	importRules(c, "C01", []string{"C01.1", "C01.17", "C01.19"}, "C02.24")
 	callerSlicesNotRewritten(c, "C02.10", negSet(c, "C02.10"))
 	// C02.14 "the tee changes none of this": the connection adapters report
 	// every fault and perform one wrapped operation per call (= C04.13)
@@ -826,7 +833,7 @@ func c02SecureIsTheLocation(c *cx, id string) {
 			continue
 		}
 		n++
-		okv := (strings.Contains(v, "websocket.Conn.Config[p0]().Location.Scheme,\"wss\")") || strings.Contains(v, "websocket.Conn.Config[p0]().Location.Scheme == \"wss\"")) && !strings.Contains(v, "Origin") && !strings.Contains(v, "Addr")
+		okv := (strings.Contains(v, "websocket.Conn.Config[p0]().Location.Scheme,\"wss\")") || strings.Contains(v, "websocket.Conn.Config[p0]().Location.Scheme == \"wss\"")) && !strings.Contains(v, "Origin") && !strings.Contains(v, "Addr") && !strings.Contains(v, "||")
 		c.r.Check(id, f, "what makes a WebSocket session secure", "P: the scheme of Config().Location is wss", rs.Pos(), okv, "returns "+v)
 	}
 	c.r.Floor(id, "returns of secureLocation that can be true", n, 1)
